@@ -126,6 +126,11 @@ def menu(f):
         newv = next((n for n in ('RN1', 'RN2') if n not in f.variables), None)
         if newv:
             add('renameVariable', True, old=vl[-1], new=newv)
+            # a name longer than the 16 characters of a VAR-LIST field cannot be listed: the count shrinks while the
+            # time flags are carried along; two variables exchanging their names
+            if 'N234567890123456X' not in f.variables:
+                add('renameVariable', True, old=vl[-1], new='N234567890123456X')
+            add('renameVariables_swap', len(vl) >= 2, a=vl[0], b=vl[-1])
             # only the renamed variable is kept: the variable count shrinks
             add('renameVariables_only', len(vl) >= 2, old=vl[0], new=newv)
         addv = next((n for n in ('ADD1', 'ADD2') if n not in f.variables), None)
@@ -181,6 +186,8 @@ def do_op(f, op):
         return (f.subset if op.get('alias') else f.subsetVariables)(list(op['keys']), exclude=op.get('exclude', False))
     if n == 'renameVariable':
         return f.renameVariable(op['old'], op['new'])
+    if n == 'renameVariables_swap':
+        return f.renameVariables(**{op['a']: op['b'], op['b']: op['a']})
     if n == 'renameVariables_only':
         return f.renameVariables(copyall=False, **{op['old']: op['new']})
     if n == 'addVariable':
@@ -300,6 +307,15 @@ class Prop(bfs.BfsProp):
             return {'op': op, 'hash': None, 'viol': vs, 'outcome': 'viol', 'trans': 1,
                     'rebuild': after != before}
         h = None
+        try:
+            nolist = int(getattr(new, 'NVARS', 1)) == 0
+        except Exception:
+            nolist = False
+        if nolist:
+            # no variable left that an IOAPI list can name (e.g. the only variable was given a 17-character
+            # name): the result is not an IOAPI file any more - outside the domain, not explored further
+            return {'op': op, 'hash': None, 'viol': [], 'outcome': 'ood-returned', 'trans': 1,
+                    'rebuild': self.canon(state) != before}
         try:
             wf = lib.wellformed(new)
             problems = coherent(new) if not wf else [('not-wellformed', '; '.join(wf))]
